@@ -208,6 +208,8 @@ Definition hash_string (c : cfg) (st : structure) (ids : list string) : string :
 (* ------------------------------------------------------------------------------------------------ state *)
 
 Record astate := { a_has_model : bool;                (* mModel set and alive *)
+                   a_model : nat;                     (* which model mModel points to (several models may be handed over in turn) *)
+                   a_owner : nat;                     (* the model whose objects the entries of mIdList refer to *)
                    a_cache : list entry;              (* mIdList *)
                    a_hash : option string;            (* mHash; None = 0 *)
                    a_counter : N;                     (* mCounter *)
@@ -215,18 +217,21 @@ Record astate := { a_has_model : bool;                (* mModel set and alive *)
 Record state := { s_ids : list string; s_ann : astate }.
 
 Definition ann_init : astate :=
-  {| a_has_model := false; a_cache := []; a_hash := None; a_counter := 0xb4da55; a_err := false |}.
+  {| a_has_model := false; a_model := 0; a_owner := 0; a_cache := []; a_hash := None; a_counter := 0xb4da55; a_err := false |}.
 Definition init (ids : list string) : state := {| s_ids := ids; s_ann := ann_init |}.
 
 Definition with_cache (a : astate) (cache : list entry) (h : option string) : astate :=
-  {| a_has_model := a_has_model a; a_cache := cache; a_hash := h; a_counter := a_counter a; a_err := a_err a |}.
+  {| a_has_model := a_has_model a; a_model := a_model a; a_owner := a_model a;     (* a rebuilt list refers to the stored model *)
+     a_cache := cache; a_hash := h; a_counter := a_counter a; a_err := a_err a |}.
 
 Definition opt_str_eqb (o : option string) (s : string) : bool :=
   match o with Some t => String.eqb t s | None => false end.
 
 (* annotator.cpp: AnnotatorImpl::update (the issues it clears are not modelled) *)
 Definition update (c : cfg) (st : structure) (s : state) : state :=
-  if negb (a_has_model (s_ann s)) then s          (* generateHash() = 0 = mHash: nothing to do *)
+  if negb (a_has_model (s_ann s)) then
+    (* no (living) model: mModel.expired() makes buildIdList() empty the list (fixes/C13-4); hash = generateHash() = 0 *)
+    {| s_ids := s_ids s; s_ann := with_cache (s_ann s) [] None |}
   else
     let h := hash_string c st (s_ids s) in
     if opt_str_eqb (a_hash (s_ann s)) h then s
@@ -241,8 +246,8 @@ Definition refresh (c : cfg) (st : structure) (s : state) : state :=
 Definition set_model (c : cfg) (st : structure) (s : state) : state :=
   let a := s_ann s in
   update c st {| s_ids := s_ids s;
-                 s_ann := {| a_has_model := true; a_cache := a_cache a; a_hash := None;
-                             a_counter := a_counter a; a_err := a_err a |} |}.
+                 s_ann := {| a_has_model := true; a_model := a_model a; a_owner := a_owner a; a_cache := a_cache a;
+                             a_hash := None; a_counter := a_counter a; a_err := a_err a |} |}.
 
 (* ------------------------------------------------------------------------------------------------ makeUniqueId *)
 
@@ -274,7 +279,8 @@ Definition assign_visit (s : state) (v : visit) : state :=
     match make_unique (a_cache a) (a_counter a) with
     | (id, n, ok) =>
         {| s_ids := set (s_ids s) (v_slot v) id;
-           s_ann := {| a_has_model := a_has_model a; a_cache := a_cache a ++ [mk_entry id v]; a_hash := a_hash a;
+           s_ann := {| a_has_model := a_has_model a; a_model := a_model a; a_owner := a_owner a;
+                       a_cache := a_cache a ++ [mk_entry id v]; a_hash := a_hash a;
                        a_counter := n; a_err := a_err a || negb ok |} |}
     end
   else s.
@@ -364,7 +370,8 @@ Definition assign_item (c : cfg) (st : structure) (v : visit) (s : state) : stat
         let cache1 := if negb (is_empty old) && removable (v_kind v)
                       then remove_first old (v_kind v) (v_slot v) (a_cache a) else a_cache a in
         ({| s_ids := set (s_ids s1) (v_slot v) id;
-            s_ann := {| a_has_model := true; a_cache := cache1 ++ [mk_entry id v]; a_hash := a_hash a;
+            s_ann := {| a_has_model := true; a_model := a_model a; a_owner := a_owner a;
+                        a_cache := cache1 ++ [mk_entry id v]; a_hash := a_hash a;
                         a_counter := n; a_err := a_err a || negb ok |} |}, id)
     end
   else (s, "").
@@ -553,6 +560,59 @@ Fixpoint run (c : cfg) (st : structure) (s : state) (h : list op) : state * list
   | [] => (s, [])
   | o :: r => let (s1, x) := step c st s o in
               let (s2, xs) := run c st s1 r in (s2, x :: xs)
+  end.
+
+(* ------------------------------------------------------------------------------------------------ several models *)
+
+(* One annotator, several models handed to it in turn (a model, its clone, a look-alike, another one, the first
+   again, a model that is then destroyed).  [sts] are the structures, [m_ids] the id vector of every model;
+   the model the annotator holds is [a_model]; every other operation acts on that model. *)
+Record mstate := { m_ids : list (list string); m_ann : astate }.
+Definition minit (idss : list (list string)) : mstate := {| m_ids := idss; m_ann := ann_init |}.
+
+Definition empty_structure : structure := {| st_model := 0; st_enc := 0; st_units := []; st_comps := [] |}.
+Definition nth_st (sts : list structure) (k : nat) : structure := nth k sts empty_structure.
+Definition nth_ids (idss : list (list string)) (k : nat) : list string := nth k idss [].
+Fixpoint set_ids (idss : list (list string)) (k : nat) (x : list string) : list (list string) :=
+  match idss, k with
+  | [], _ => []
+  | _ :: r, O => x :: r
+  | y :: r, S m => y :: set_ids r m x
+  end.
+
+Inductive mop :=
+| MSetModel (k : nat)                       (* Annotator::setModel(model k) *)
+| MEdit (k slot : nat) (id : string)        (* a setter on an object of model k (the stored model or another one) *)
+| MDrop                                     (* the last reference to the stored model is dropped: mModel expires *)
+| MOp (o : op).                             (* any operation of [op] on the stored model *)
+
+Definition with_model (a : astate) (k : nat) : astate :=
+  {| a_has_model := a_has_model a; a_model := k; a_owner := a_owner a; a_cache := a_cache a; a_hash := a_hash a;
+     a_counter := a_counter a; a_err := a_err a |}.
+Definition without_model (a : astate) : astate :=
+  {| a_has_model := false; a_model := a_model a; a_owner := a_owner a; a_cache := a_cache a; a_hash := a_hash a;
+     a_counter := a_counter a; a_err := a_err a |}.
+
+Definition mstep (c : cfg) (sts : list structure) (ms : mstate) (o : mop) : mstate * result :=
+  match o with
+  | MSetModel k =>
+      (* annotator.cpp: setModel: mModel = model; mHash = 0; update() *)
+      let s' := set_model c (nth_st sts k) {| s_ids := nth_ids (m_ids ms) k; s_ann := with_model (m_ann ms) k |} in
+      ({| m_ids := m_ids ms; m_ann := s_ann s' |}, RNone)
+  | MEdit k slot id =>
+      ({| m_ids := set_ids (m_ids ms) k (set (nth_ids (m_ids ms) k) slot id); m_ann := m_ann ms |}, RNone)
+  | MDrop => ({| m_ids := m_ids ms; m_ann := without_model (m_ann ms) |}, RNone)
+  | MOp o =>
+      let k := a_model (m_ann ms) in
+      let (s', r) := step c (nth_st sts k) {| s_ids := nth_ids (m_ids ms) k; s_ann := m_ann ms |} o in
+      ({| m_ids := set_ids (m_ids ms) k (s_ids s'); m_ann := s_ann s' |}, r)
+  end.
+
+Fixpoint mrun (c : cfg) (sts : list structure) (ms : mstate) (h : list mop) : mstate * list result :=
+  match h with
+  | [] => (ms, [])
+  | o :: r => let (m1, x) := mstep c sts ms o in
+              let (m2, xs) := mrun c sts m1 r in (m2, x :: xs)
   end.
 
 (* ------------------------------------------------------------------------------------------------ spec side *)
